@@ -212,6 +212,27 @@ def radii_conversion(ctx, repo, pid="C16"):
                                      witness=contains_top(ref) or vstr(pos[0] if pos else ct)[:240])
             elif reader is not None and ct is not None:
                 pass
+        # every accepted spelling ends as a ONE-dimensional array (a bare number "0.3" parses to a 0-d array: only a flattening
+        # operation on every path - np.sort(axis=None), ravel, flatten, atleast_1d, reshape(-1) - makes len() and indexing work)
+        def flat_on_all_paths(t):
+            if isinstance(t, Term):
+                if t.op == "sort" and isinstance(t.kw.get("axis"), Const) and t.kw["axis"].v is None:
+                    return True
+                if t.op in ("ravel", "flatten", "m.ravel", "m.flatten", "atleast_1d", "linspace", "arange"):
+                    return True
+                if t.op in ("reshape", "m.reshape") and len(t.args) >= 2 and isinstance(t.args[-1], Num) and t.args[-1].p == Poly.const(-1):
+                    return True
+                if t.op == "phi":
+                    alts = [a.items[1] if isinstance(a, TupleV) and len(a.items) == 2 else a for a in t.args]
+                    return all(flat_on_all_paths(a) for a in alts)
+                if t.args:
+                    return flat_on_all_paths(t.args[0]) or (t.op in ("mult", "div", "add", "sub") and any(flat_on_all_paths(a) for a in t.args))
+            return False
+        ctx.instance("FLOW")
+        if ok:
+            ctx.check(flat_on_all_paths(tg), "FLOW", f"{tag}.onedim", f"{name} branch: the values are flattened to a one-dimensional array on every "
+                      "path (a single radius written as a bare number does not stay a 0-d array)", where, "np.sort(self.trans_grid, axis=None)",
+                      witness=f"a path reaches the end of the constructor without a flattening operation: {vstr(tg)[:200]}")
         # dispatch reaches the right constructor
         exp_op = {"literal": "literal_eval", "linspace": "linspace", "range": "arange"}[name]
         ctx.check(exp_op in inner_ops, "DISPATCH", f"{tag}.ctor", f"{name} branch builds the grid with {exp_op}", where,
